@@ -174,6 +174,7 @@ func (t *Tester) run(testFile string) (*TestResult, error) {
 					}
 
 					start := time.Now()
+					fails := t.counter.Fails
 					err := i.ProcessTestSubroutine(s, st)
 					cases = append(cases, &TestCase{
 						Name:  metadata.Name,
@@ -182,8 +183,9 @@ func (t *Tester) run(testFile string) (*TestResult, error) {
 						Time:  time.Since(start).Milliseconds(),
 						Logs:  d.stack,
 					})
-					if err != nil {
-						t.counter.Fail()
+					// A failed assertion is already counted by the assertion function
+					if err != nil && t.counter.Fails == fails {
+						t.counter.Error()
 					}
 				}
 			}
@@ -270,6 +272,7 @@ func (t *Tester) runDescribedTests(
 			}
 
 			start := time.Now()
+			fails := t.counter.Fails
 			err := i.ProcessTestSubroutine(s, sub)
 			cases = append(cases, &TestCase{
 				Name:  metadata.Name,
@@ -279,8 +282,9 @@ func (t *Tester) runDescribedTests(
 				Time:  time.Since(start).Milliseconds(),
 				Logs:  debugger.stack,
 			})
-			if err != nil {
-				t.counter.Fail()
+			// A failed assertion is already counted by the assertion function
+			if err != nil && t.counter.Fails == fails {
+				t.counter.Error()
 			}
 
 			// Run after_xxx hook that corresponds to scope is exists
